@@ -91,6 +91,7 @@ type Schema struct {
 
 type ContractSet struct {
 	Unproved map[string]map[string]string // function -> clause label -> reason: clause is assumed by callers but not yet proved for this function
+	GhostDefs map[string]map[string]*Expr // ghost name -> heap type name -> defining expression over self
 	TypeInvs map[string]*Expr // heap type name -> invariant over `self` replacing the inferred required fields
 	Funcs   map[string]*Contract
 	Schemas []*Schema
@@ -226,6 +227,24 @@ func (cs *ContractSet) line(cur **Contract, text, file string, ln int) error {
 		for _, l := range strings.Split(f[0], ",") {
 			cs.Unproved[f[1]][l] = reason
 		}
+		return nil
+	case word == "ghostdef":
+		// ghostdef NAME ast.T EXPR   (EXPR over self)
+		f := strings.SplitN(rest, " ", 3)
+		if len(f) != 3 {
+			return fmt.Errorf("malformed ghostdef")
+		}
+		e, err := ParseExpr(f[2])
+		if err != nil {
+			return err
+		}
+		if cs.GhostDefs == nil {
+			cs.GhostDefs = map[string]map[string]*Expr{}
+		}
+		if cs.GhostDefs[f[0]] == nil {
+			cs.GhostDefs[f[0]] = map[string]*Expr{}
+		}
+		cs.GhostDefs[f[0]][f[1]] = e
 		return nil
 	case word == "typeinv":
 		// typeinv ast.T EXPR   (EXPR over self)
